@@ -3,10 +3,11 @@
 set -e
 cd "$(dirname "$0")"
 export CARGO_NET_OFFLINE=true
-python3 tools/fpextract.py /repo lean/Fpdec/Gen/Consts.lean
-python3 tools/fpsites.py /repo lean/Fpdec/Gen/Sites.lean
+python3 tools/fpextract.py ${FPDEC_REPO:-/repo} lean/Fpdec/Gen/Consts.lean
+python3 tools/fpsites.py ${FPDEC_REPO:-/repo} lean/Fpdec/Gen/Sites.lean
 (cd lean && lake build Fpdec fpmodel)
-[ -f harness/Cargo.lock ] || cp /repo/Cargo.lock harness/Cargo.lock
+[ -f harness/Cargo.lock ] || cp ${FPDEC_REPO:-/repo}/Cargo.lock harness/Cargo.lock
+sed "s|@REPO@|${FPDEC_REPO:-/repo}|g" harness/Cargo.toml.in > harness/Cargo.toml
 (cd harness && cargo build --offline && cargo build --offline --release)
 (cd harness && cargo build --offline --features serde-as-str && cargo build --offline --features rkyv && cargo build --offline --features num-traits && cargo build --offline)
 echo setup done
